@@ -169,4 +169,24 @@ def run(ctx):
     from .wrap_common import check_wraps
     nw = check_wraps(facts, run, "C19.A5", ("a5::core::coordinate_transforms::", "a5::core::cell::", "a5::coordinate_systems::"))
     run.floor("C19.A5", "longitude wrap sites", nw, 2)
-    run.floor("C19", "rule instances", len(run.instances), 11)
+    # A6: the series is summed from sin(phi) and cos(phi) by products only: the double-angle terms keep full relative
+    # precision at the equator and the poles.  Any other float intrinsic in the authalic functions (a square root or an
+    # inverse trigonometric function deriving one trigonometric value from another) gives that up.
+    from ..models import FLOAT_PREFIXES
+    allowed = {"sin", "cos", "sin_cos", "abs", "to_radians", "to_degrees", "is_nan", "is_finite"}
+    used, extra6 = set(), []
+    nfn = 0
+    for pth in sorted(facts.fns):
+        if not pth.startswith("a5::projections::authalic::") or facts.fns[pth]["kind"] not in ("Fn", "AssocFn", "Closure"):
+            continue
+        nfn += 1
+        for c in fn_terms(facts, pth).calls():
+            if c.callee and any(c.callee.startswith(p_) for p_ in FLOAT_PREFIXES):
+                short = c.callee.split("::")[-1]
+                used.add(short)
+                if short not in allowed:
+                    extra6.append("%s in %s" % (short, pth.split("::")[-1]))
+    run.inst("C19.A6", "series-from-sin-cos-products", nfn >= 1 and not extra6 and bool(used & {"sin", "cos", "sin_cos"}),
+             "float intrinsics used by the authalic conversion: %s%s" % (sorted(used), "" if not extra6 else "; not sine/cosine: %s" % sorted(set(extra6))),
+             where(facts.fns[APPLY]["span"]) if APPLY in facts.fns else None)
+    run.floor("C19", "rule instances", len(run.instances), 12)
